@@ -719,7 +719,7 @@ func init() {
 	register(&Prop{
 		ID: "C19", Engine: "server+client",
 		Generate: genC19, Decode: decodeC19, Execute: execC19,
-		Config: func(any) simrt.Config { return simrt.Config{MaxSteps: 200000, IdleProbe: 5 * time.Second} },
+		Config: func(any) simrt.Config { return simrt.Config{MaxSteps: 60000, IdleProbe: 5 * time.Second} },
 		Runs:   clientRuns(150000, 8000000),
 		Floors: []Floor{{Name: "all-short-chains", Count: func(t string) int { return len(c19Floor(t)) }, Scenario: func(t string, i int) any { return c19Floor(t)[i] }}},
 		Rule:   "one evaluation = one simulated run of a generated middleware chain (0-4 stages; each stage calls the continuation 0-3 times, optionally replacing the message/batch item and wrapping the context, and returns the last/first/a fabricated result or (nil, err)) on one of the three real chain drivers (Client.Roundtrip, BatchExecutor.HandleRequest, the batch-item chain) with 1-3 concurrent requests sharing the chain; distinct = distinct event-log hashes among runs with at least one preemption",
